@@ -93,8 +93,12 @@ inductive Event
   | save (u : Uri) (t : Text)
   /-- `textDocument/didClose` -/
   | close (u : Uri)
-  /-- response to the server's `workspace/configuration` request; `order` is the iteration order
-      of the `doc_chkpts` hash map (an oracle, like an allocation policy) -/
+  /-- first half of the handler of the response to the server's `workspace/configuration` request
+      (response.rs): `if let Ok(mut mutex) = tools.analyzer.lock() { mutex.set_config(..) }` -/
+  | configLock
+  /-- second half of that handler: the new settings are in `tools.config` and one private-analyzer
+      job is launched per checkpoint; `order` is the iteration order of the `doc_chkpts` hash map
+      (an oracle, like an allocation policy).  No lock is needed for this part. -/
   | config (live : Bool) (order : List Uri)
   /-- job `id` returns from `analyzer.lock()` -/
   | acquire (id : Nat)
@@ -146,8 +150,8 @@ def samePerm (a b : List Uri) : Bool :=
   a.length == b.length && a.all (fun x => b.contains x) && b.all (fun x => a.contains x)
 
 /-- One transition.  `none` = the event is not enabled in this state (a thread event for a job that
-is not in the matching state; `acquire` of a job that must keep waiting; the configuration handler
-while a job holds the mutex — it blocks in `tools.analyzer.lock()`). -/
+is not in the matching state; `acquire` of a job that must keep waiting; `configLock` while a job
+holds the mutex — the main thread blocks in `tools.analyzer.lock()`). -/
 def step (an : Text → Option Diags) (s : State) : Event → Option State
   | .opn u v t =>
     -- notification.rs:25-42: checkpoint created/replaced, one job launched
@@ -166,14 +170,15 @@ def step (an : Text → Option Diags) (s : State) : Event → Option State
     some (launch s { uri := u, ver := none, text := t } false)
   | .close u =>
     some { s with docs := erase s.docs u }
-  | .config live order =>
-    -- response.rs: `if let Ok(mut mutex) = tools.analyzer.lock()` blocks while a job holds the
-    -- mutex, is skipped if poisoned; then one private-analyzer job per checkpoint
+  | .configLock =>
+    -- the main thread blocks in `lock()` while a job holds the mutex; a poisoned mutex is skipped;
+    -- the guard is released before anything else happens
     match s.lock with
     | .held _ => none
-    | _ =>
-      if samePerm order (keys s.docs) then some (relaunch { s with live := live } order)
-      else none
+    | _ => some s
+  | .config live order =>
+    if samePerm order (keys s.docs) then some (relaunch { s with live := live } order)
+    else none
   | .acquire id =>
     match findJob s.queue id with
     | none => none
